@@ -12,11 +12,16 @@
                                     running => proceeds, stopped => 503, paused => parks on
                                     (generation, timer armed now with the max-pause in force now);
       - [KGateWake pc by_channel]   the select in Wait: by channel only once the generation
-                                    has been closed; by timer exactly at the deadline;
+                                    has been closed; by timer exactly at the deadline, and not
+                                    later than the instant at which the generation was closed
+                                    (a goroutine blocked in the select is woken by the close at
+                                    that very instant; at the SAME instant both cases are ready
+                                    and either may win, so the tie is accepted);
       - [KGateResult r svc a]       what Wait returned: the re-read of the state after a
                                     channel wake decides between proceed and stopped;
       - [KPick / KLbClaim / KClaim / KClaimRefused]  only after the gate let the request pass;
-      - [KRespond r status _]       503 after "stopped", 504 after "timed out", once;
+      - [KRespond r status by]      503 after "stopped", 504 after "timed out", once; these two are
+                                    the proxy's own answers, so they name no target ([by] empty);
       - [KSvcCopy old new]          a redeployed copy shares the controller of the original.
 
     Everything else is ignored.  No proofs here (proofs/M5gateFacts.v). *)
@@ -60,13 +65,14 @@ Record gst := mkG {
   g_ctl : list (nat * ctl);
   g_opened : list nat;                (* generations ever created *)
   g_closed : list (nat * gstate);     (* closed generation -> state set by the closing call *)
+  g_ctime : list (nat * N);           (* closed generation -> time of the closing call *)
   g_req : list (nat * phase);
   g_known : list nat;                 (* service objects seen *)
   g_parent : list (nat * nat);        (* copy -> original object of its lineage *)
   g_pc : list (nat * nat)             (* original object -> its pause controller *)
 }.
 
-Definition ginit : gst := mkG [] [] [] [] [] [] [] [].
+Definition ginit : gst := mkG [] [] [] [] [] [] [] [] [].
 
 Definition ctl_of (s : gst) (pc : nat) : ctl :=
   match nget (g_ctl s) pc with Some c => c | None => ctl0 end.
@@ -77,15 +83,15 @@ Definition root (s : gst) (svc : nat) : nat :=
 Definition pc_of (s : gst) (svc : nat) : option nat := nget (g_pc s) (root s svc).
 
 Definition set_ctl (s : gst) (pc : nat) (c : ctl) : gst :=
-  mkG (g_cmds s) (nset (g_ctl s) pc c) (g_opened s) (g_closed s) (g_req s) (g_known s) (g_parent s) (g_pc s).
+  mkG (g_cmds s) (nset (g_ctl s) pc c) (g_opened s) (g_closed s) (g_ctime s) (g_req s) (g_known s) (g_parent s) (g_pc s).
 
 Definition set_req (s : gst) (r : nat) (p : phase) : gst :=
-  mkG (g_cmds s) (g_ctl s) (g_opened s) (g_closed s) (nset (g_req s) r p) (g_known s) (g_parent s) (g_pc s).
+  mkG (g_cmds s) (g_ctl s) (g_opened s) (g_closed s) (g_ctime s) (nset (g_req s) r p) (g_known s) (g_parent s) (g_pc s).
 
 (** ** Steps *)
 
 Definition step_params (s : gst) (c : nat) (fa : N) : option gst :=
-  Some (mkG (nset (g_cmds s) c fa) (g_ctl s) (g_opened s) (g_closed s) (g_req s) (g_known s) (g_parent s) (g_pc s)).
+  Some (mkG (nset (g_cmds s) c fa) (g_ctl s) (g_opened s) (g_closed s) (g_ctime s) (g_req s) (g_known s) (g_parent s) (g_pc s)).
 
 (** PauseController.Pause(failAfter) by command [who] *)
 Definition step_pause (s : gst) (who : actor) (pc : nat) (ch : option nat) : option gst :=
@@ -103,7 +109,7 @@ Definition step_pause (s : gst) (who : actor) (pc : nat) (ch : option nat) : opt
         | Some g =>
           if nmem g (g_opened s) then None
           else Some (mkG (g_cmds s) (nset (g_ctl s) pc (mkCtl GPaused (Some g) fa)) (g :: g_opened s)
-                         (g_closed s) (g_req s) (g_known s) (g_parent s) (g_pc s))
+                         (g_closed s) (g_ctime s) (g_req s) (g_known s) (g_parent s) (g_pc s))
         | None => None
         end
       end
@@ -112,8 +118,8 @@ Definition step_pause (s : gst) (who : actor) (pc : nat) (ch : option nat) : opt
   | _ => None
   end.
 
-(** PauseController.setState(st, _) with st = running (Resume) or stopped (Stop) *)
-Definition step_setstate (s : gst) (pc : nat) (st : gstate) (ch : option nat) : option gst :=
+(** PauseController.setState(st, _) with st = running (Resume) or stopped (Stop), at time [t] *)
+Definition step_setstate (s : gst) (t : N) (pc : nat) (st : gstate) (ch : option nat) : option gst :=
   let c := ctl_of s pc in
   if onat_eqb ch (c_chan c) then
     match c_state c with
@@ -123,7 +129,7 @@ Definition step_setstate (s : gst) (pc : nat) (st : gstate) (ch : option nat) : 
         match nget (g_closed s) g with
         | Some _ => None
         | None => Some (mkG (g_cmds s) (nset (g_ctl s) pc (mkCtl st ch (c_fail c))) (g_opened s)
-                            ((g, st) :: g_closed s) (g_req s) (g_known s) (g_parent s) (g_pc s))
+                            ((g, st) :: g_closed s) ((g, t) :: g_ctime s) (g_req s) (g_known s) (g_parent s) (g_pc s))
         end
       | None => None       (* close(nil) would panic *)
       end
@@ -131,10 +137,10 @@ Definition step_setstate (s : gst) (pc : nat) (st : gstate) (ch : option nat) : 
     end
   else None.
 
-Definition step_set (s : gst) (who : actor) (pc : nat) (st : gstate) (ch : option nat) : option gst :=
+Definition step_set (s : gst) (t : N) (who : actor) (pc : nat) (st : gstate) (ch : option nat) : option gst :=
   match st with
   | GPaused => step_pause s who pc ch
-  | _ => step_setstate s pc st ch
+  | _ => step_setstate s t pc st ch
   end.
 
 Definition step_read (s : gst) (t : N) (who : actor) (pc : nat) (st : gstate) (ch : option nat) : option gst :=
@@ -158,6 +164,9 @@ Definition step_read (s : gst) (t : N) (who : actor) (pc : nat) (st : gstate) (c
   | _ => None
   end.
 
+(** the select in Wait.  A timer wake happens at the deadline; if the generation of the request has been
+    closed, it was closed at this very instant or later in virtual time — never strictly earlier: the close
+    wakes a goroutine blocked in the select at once (the tie "same instant" stays: both cases ready). *)
 Definition step_wake (s : gst) (t : N) (who : actor) (pc : nat) (by_chan : bool) : option gst :=
   match who with
   | AReq r =>
@@ -165,7 +174,8 @@ Definition step_wake (s : gst) (t : N) (who : actor) (pc : nat) (by_chan : bool)
     | Some (PhParked h) =>
       if Nat.eqb pc (h_pc h) &&
          (if by_chan then match nget (g_closed s) (h_gen h) with Some _ => true | None => false end
-          else t =? h_tread h + h_fail h)
+          else (t =? h_tread h + h_fail h) &&
+               match nget (g_ctime s) (h_gen h) with Some tc => t <=? tc | None => true end)
       then Some (set_req s r (PhWoken h (mkWake by_chan t (c_state (ctl_of s pc)))))
       else None
     | _ => None
@@ -183,7 +193,7 @@ Definition gaction_eqb (a b : gaction) : bool :=
 Definition bind_pc (s : gst) (svc pc : nat) : option gst :=
   match pc_of s svc with
   | Some p => if Nat.eqb p pc then Some s else None
-  | None => Some (mkG (g_cmds s) (g_ctl s) (g_opened s) (g_closed s) (g_req s)
+  | None => Some (mkG (g_cmds s) (g_ctl s) (g_opened s) (g_closed s) (g_ctime s) (g_req s)
                       (svc :: g_known s) (g_parent s) (nset (g_pc s) (root s svc) pc))
   end.
 
@@ -216,11 +226,16 @@ Definition step_path (s : gst) (r : nat) : option gst :=
   | _ => None
   end.
 
-Definition step_respond (s : gst) (r : nat) (status : N) : option gst :=
+(** the answer.  After "stopped" / "timed out" it is the proxy's own 503 / 504: no target served it. *)
+Definition step_respond (s : gst) (r : nat) (status : N) (sb : str) : option gst :=
   match nget (g_req s) r with
   | None => Some (set_req s r (PhAnswered None None status))
   | Some (PhDone _ hw a) =>
-    if match a with AStopped => status =? 503 | ATimedOut => status =? 504 | AProceed => true end
+    if match a with
+       | AStopped => (status =? 503) && str_eqb sb []
+       | ATimedOut => (status =? 504) && str_eqb sb []
+       | AProceed => true
+       end
     then Some (set_req s r (PhAnswered hw (Some a) status))
     else None
   | Some _ => None
@@ -228,13 +243,13 @@ Definition step_respond (s : gst) (r : nat) (status : N) : option gst :=
 
 Definition step_copy (s : gst) (old new : nat) : option gst :=
   if nmem new (g_known s) || Nat.eqb old new then None
-  else Some (mkG (g_cmds s) (g_ctl s) (g_opened s) (g_closed s) (g_req s)
+  else Some (mkG (g_cmds s) (g_ctl s) (g_opened s) (g_closed s) (g_ctime s) (g_req s)
                  (new :: old :: g_known s) (nset (g_parent s) new (root s old)) (g_pc s)).
 
 Definition gstep (s : gst) (e : event) : option gst :=
   match e_k e with
   | KParams c _ _ fa => step_params s c fa
-  | KGateSet pc st ch => step_set s (e_by e) pc st ch
+  | KGateSet pc st ch => step_set s (e_t e) (e_by e) pc st ch
   | KGateRead pc st ch => step_read s (e_t e) (e_by e) pc st ch
   | KGateWake pc b => step_wake s (e_t e) (e_by e) pc b
   | KGateResult r svc a => step_result s (e_by e) r svc a
@@ -242,7 +257,7 @@ Definition gstep (s : gst) (e : event) : option gst :=
   | KLbClaim _ _ r => step_path s r
   | KClaim _ r => step_path s r
   | KClaimRefused _ r => step_path s r
-  | KRespond r status _ => step_respond s r status
+  | KRespond r status sb => step_respond s r status sb
   | KSvcCopy old new => step_copy s old new
   | _ => Some s
   end.
